@@ -3,6 +3,7 @@
 // Unit `dmlwal`: the three row-level write paths DmlExecutor::{insert, update, delete}.
 //   C01/C02 write-ahead rule: the log record naming this table and this row is appended BEFORE the
 //           table's tree is modified, on every path, and a path that modifies nothing logs nothing.
+//   C03     a delete mark left by a rolled-back transaction does not block a later delete.
 //   C03/C04 every version written carries the writing transaction's own id (creator of an inserted
 //           or updated version, deleter of a deleted one); a row the transaction's snapshot cannot
 //           see is neither logged nor modified.
@@ -13,6 +14,7 @@
 // calls; the env states no negative fact, so a fact is available exactly when the call came first.
 //@trusted [env] catalog lookup, B+tree search/insert/update (units btsearch, btentry), tuple building and version stamping (Kani unit tuplelayout), logger (unit wal), secondary-index maintenance and constraint validation are abstract
 //@trusted [env] Tuple::add_version_with is given the contract `the newest version is created by tid`; that contract is what unit tupleversion checks on the real function (and where the open finding update.newest_version_created_by_writer lives)
+//@trusted [pre] a row visible to the writer carries a delete mark only if that mark was left by a rolled-back transaction (a mark of a committed deleter makes the row invisible; marks of concurrent uncommitted deleters are excluded: no write over another transaction's uncommitted write)
 //@trusted [pre] ThreadContext is well formed: ctx.tid() == ctx.snapshot().xid() (both copied from the same TransactionHandle when the context is built)
 //@trusted [sub] `btree.with_cell_at(position, |bytes| { tuple_reader.parse_for_snapshot(bytes, &snapshot).ok()??; Tuple::from_slice_unchecked(bytes).ok() })` is visible_tuple_at(position, &tuple_reader, &snapshot); Box::from(&t) is boxed(&t); HashMap<usize, DataType> is the opaque Assignments; `.expect(msg)` is `.unwrap()`
 use vstd::prelude::*;
@@ -51,6 +53,9 @@ impl Snapshot {
     pub fn xid(&self) -> (r: u64) ensures r == self.id() { unimplemented!() }
     #[verifier::external_body]
     pub fn xmin(&self) -> (r: u64) { unimplemented!() }
+    pub uninterp spec fn aborted(&self, t: u64) -> bool;
+    #[verifier::external_body]
+    pub fn is_transaction_aborted(&self, t: u64) -> (r: bool) ensures r == self.aborted(t) { unimplemented!() }
     #[verifier::external_body]
     pub fn clone(&self) -> (r: Snapshot) ensures r.id() == self.id() { unimplemented!() }
 }
@@ -85,10 +90,21 @@ impl Tuple {
     pub uninterp spec fn writer(&self) -> u64;     // who stamped the newest version / the delete mark
     pub uninterp spec fn checked(&self) -> bool;   // the stored image was built from validated values
     #[verifier::external_body]
-    pub fn clone(&self) -> (r: Tuple) ensures r.key() == self.key() { unimplemented!() }
+    pub fn clone(&self) -> (r: Tuple) ensures r.key() == self.key() && r.mark() == self.mark() && r.writer() == self.writer() && r.checked() == self.checked() { unimplemented!() }
+    pub uninterp spec fn mark(&self) -> Option<u64>;    // the delete mark (xmax) of the stored tuple
+    #[verifier::external_body]
+    pub fn xmax(&self) -> (r: Option<TransactionId>) ensures r == self.mark() { unimplemented!() }
+    // Tuple::clear_delete_mark: header rewritten with xmax = None, nothing else
+    #[verifier::external_body]
+    pub fn clear_delete_mark(&mut self) -> (r: RuntimeResult<()>)
+        ensures final(self).key() == old(self).key(), final(self).checked() == old(self).checked(), r is Ok ==> final(self).mark() is None, r is Err ==> final(self).mark() == old(self).mark() { unimplemented!() }
+    // Tuple::delete KEEPS an existing mark (Kani unit tuplelayout: tuple.delete_stamps_deleter)
     #[verifier::external_body]
     pub fn delete(&mut self, xid: TransactionId) -> (r: RuntimeResult<()>)
-        ensures final(self).key() == old(self).key(), r is Ok ==> final(self).writer() == xid { unimplemented!() }
+        ensures final(self).key() == old(self).key(),
+            r is Ok && old(self).mark() is None ==> final(self).writer() == xid && final(self).mark() == Some(xid),
+            old(self).mark() is Some ==> final(self).writer() == old(self).writer() && final(self).mark() == old(self).mark(),
+    { unimplemented!() }
     #[verifier::external_body]
     pub fn add_version_with(&mut self, a: &Assignments, tid: TransactionId, s: &Schema) -> (r: RuntimeResult<()>)
         ensures final(self).key() == old(self).key(), r is Ok ==> final(self).writer() == tid,
@@ -177,6 +193,7 @@ impl Btree {
     pub fn visible_tuple_at(&mut self, pos: u64, reader: &TupleReader, snap: &Snapshot) -> (r: RuntimeResult<Option<Tuple>>)
         ensures *final(self) == *old(self),
             r matches Ok(Some(t)) ==> t.key() == old(self).key_at(pos),
+            r matches Ok(Some(t)) ==> (t.mark() matches Some(x) ==> snap.aborted(x)),
             r matches Ok(o) ==> (o is Some <==> old(self).visible(pos, snap.id())),
     { unimplemented!() }
     #[verifier::external_body]
